@@ -91,6 +91,17 @@ namespace {
 
   void dump_entry(const char* tag, const std::string& id, const GlossaryEntry& e) {
     std::cout << tag << " " << hex(id) << " " << hex(e.getKey());
+    {
+      // "the entry reports that key": the conversion to std::string and the comparison operators with
+      // strings must agree with getKey()
+      const std::string& k = e.getKey();
+      const std::string& conv = e;
+      const std::string other = k + "#";
+      if (conv != k || !(e == k) || !(k == e) || (e != k) || (k != e) || (e == other) || (other == e) ||
+          !(e != other) || !(other != e)) {
+        std::cout << " KEY-REPORT-MISMATCH";
+      }
+    }
     std::cout << " names";
     for (const auto& n : e.getNames()) std::cout << " " << hex(n);
     std::cout << " units";
